@@ -5,6 +5,7 @@
 // received; normal-equation residual bound G (DESIGN C07); a fresh solver given the problem alone
 // is the reference for the history clause.  Rows of the solver's buffers beyond the current data
 // size are poisoned with 1e30 before each solve.
+#include <memory>
 #include <Eigen/Dense>
 #include "romea_core_common/regression/leastsquares/LeastSquares.hpp"
 #include "vh.hpp"
@@ -135,7 +136,19 @@ static void run_history(vh::Ctx & c, vh::Rng & r, int m, bool is_float)
 {
   const LD eps = std::numeric_limits<S>::epsilon();
   const int nprob = (int)r.range(2, 12);
-  LeastSquares<S> reused(m);
+  // construction routes, value semantics and estimate-size changes are drawn from a separate stream
+  // so that the sequence of problems of a case does not depend on them
+  vh::Rng rv(c.seed, c.cur, 11);
+  std::unique_ptr<LeastSquares<S>> reused_p;
+  const int route = (int)rv.range(0, 3);
+  if (route == 0) {
+    // default construction, sizes configured afterwards (setEstimateSize)
+    reused_p = std::make_unique<LeastSquares<S>>(); reused_p->setEstimateSize(m); c.cat("constructed_default_then_setEstimateSize");
+  } else if (route == 1) {
+    // constructed for another estimate size, re-configured before the first problem
+    reused_p = std::make_unique<LeastSquares<S>>((size_t)(1 + (m % 8)), (size_t)rv.range(1, 40)); reused_p->setEstimateSize(m);
+    c.cat("constructed_for_another_estimate_size_then_setEstimateSize");
+  } else {reused_p = std::make_unique<LeastSquares<S>>(m); c.cat("constructed_with_estimate_size");}
   bool use_ctor2 = r.coin(0.3);
   int prev_n = -1; bool shrunk = false, grown = false;
   typename LeastSquares<S>::Matrix * kept_J = nullptr; typename LeastSquares<S>::Vector * kept_Y = nullptr, * kept_W = nullptr;
@@ -143,6 +156,16 @@ static void run_history(vh::Ctx & c, vh::Rng & r, int m, bool is_float)
   uint64_t h = vh::hash_doubles({(double)m, (double)is_float, (double)nprob});
   std::string trace;
   for (int k = 0; k < nprob; ++k) {
+    LeastSquares<S> & reused = *reused_p;
+    if (k > 0 && rv.coin(0.12)) {
+      // the estimate size changes inside the history ("problems of varying sizes" on one object)
+      int m2 = (int)rv.range(1, 8);
+      if (m2 != m) {
+        m = m2; reused.setEstimateSize(m); kept_J = nullptr; kept_n = -1; prev_n = -1;
+        c.cat(std::string("estimate_size_changed_in_history"));
+        trace += ",[m=" + std::to_string(m) + "]";
+      }
+    }
     Problem p;
     gen_problem<S>(r, m, p, is_float);
     if (k > 0 && kept_n >= m && r.coin(0.25)) {
@@ -242,6 +265,32 @@ static void run_history(vh::Ctx & c, vh::Rng & r, int m, bool is_float)
     c.expect_le("history_independent", (xf - x).norm(), 2 * ptol, "depends_on_history", params, [&]() {
         return vh::J().raw("reused", wit()).raw("x_fresh", vh::jvec(xf)).str();
       });
+    // ---- value semantics: the history continues on a copy / assigned / moved-to object while the
+    // source is given an unrelated problem (or destroyed); a copy shares nothing with its source
+    if (rv.coin(0.15)) {
+      const int how = (int)rv.range(0, 3);
+      std::unique_ptr<LeastSquares<S>> next;
+      if (how == 0) {next = std::make_unique<LeastSquares<S>>(reused); c.cat("history_continues_on_copy_constructed");} else if (how == 1) {
+        next = std::make_unique<LeastSquares<S>>((size_t)(1 + (m % 8)), (size_t)rv.range(1, 600)); *next = reused; c.cat("history_continues_on_copy_assigned");
+      } else if (how == 2) {next = std::make_unique<LeastSquares<S>>(std::move(reused)); c.cat("history_continues_on_move_constructed");} else {
+        next = std::make_unique<LeastSquares<S>>(m); *next = std::move(reused); c.cat("history_continues_on_move_assigned");
+      }
+      if (how <= 1) {
+        // the copy must reproduce the last answer bit for bit (un-weighted solves leave J and Y untouched)
+        if (p.method != "weighted") {
+          VecL xc = solve(*next, p.method);
+          c.expect("copy_reproduces_last_answer", (xc - x).norm() == 0, "copy_differs_from_source", params, [&]() {
+              return vh::J().raw("source", wit()).raw("x_copy", vh::jvec(xc)).str();
+            });
+        }
+        if (rv.coin()) {
+          Problem q; gen_problem<S>(rv, m, q, is_float); fill(reused, q, true); (void)solve(reused, q.method);
+        }
+      }
+      reused_p = std::move(next);      // the source is destroyed here
+      kept_J = nullptr; kept_n = -1;
+      trace += how <= 1 ? ",[copy]" : ",[move]";
+    }
   }
   c.distinct(h, shrunk && grown);
   if (shrunk) {c.cat("history_with_shrink");}
